@@ -15,9 +15,10 @@ P = {
          "frees, allocations, commit, rollback) for unbounded histories; corollaries: pages of a version an open reader views are never written and never reusable. Spec.v: calls through a "
          "read transaction change nothing. Tie: every reader is re-dumped after every writer event and compared with the extracted Spec state of its begin.",
          "Atomicity of the critical sections under the real Go scheduler (metalock/mmaplock) is runtime behaviour: exercised, not proved. Known finding D5 (failed final sync) is in C08's domain.", "DESIGN.md §8 C02"),
- "C04": ("Theorems about the reference model Spec.v (errors change nothing, read-your-own-writes at any depth, ordered-map laws) hold for all programs and states; "
+ "C04": ("19 theorems about the reference model Spec.v for all programs and states: errors change nothing, read-your-own-writes at any depth, ordered-map laws, every reachable state is sorted at every level, "
+         "created buckets are empty, deleted buckets vanish with their subtree, moved buckets arrive intact and leave their source, a move into the own subtree is refused, sequence laws (mod 2^64), put/delete frame; "
          "every API result and dump of the implementation is compared with the extracted Spec on generated histories, so a deviation is a concrete failing program.",
-         "Root bucket used only through Tx methods; oversized bucket names and MoveBucket into the moved bucket's own subtree (D4) are outside generation.", "DESIGN.md §8 C04"),
+         "Root bucket used only through Tx methods; oversized bucket names are outside generation; MoveBucket into the moved bucket's own subtree is generated and is known finding D4. The tree-mutation layer of bbolt (node split/merge) is tied by correspondence only.", "DESIGN.md §8 C04"),
  "C05": ("Cursor.v is a line-for-line Gallina model of cursor.go; theorems: the full refinement statement to the sorted-list specification is REFUTED with a kernel-checked witness (known finding D9), "
          "and PROVED for every call sequence (First/Last/Next/Prev/Seek in any order, both ends) on every well-formed tree without emptied leaves - every committed tree, every read transaction; "
          "Seek = first key >= the sought one; keys strictly increasing; the repaired prev/Last behaviour vs the pinned one on concrete trees; the model is compared call by call with the real cursor on the tree "
@@ -27,7 +28,7 @@ P = {
          "Tie: the extracted pstep is replayed on the real freelist events (guards monitored, free/pending/version/written sets compared) and every real WriteAt is intersected with "
          "decoder-computed page sets of all visible versions.",
          "Domain: files produced by Open + histories (not backup copies / reverted files). Failed commits are covered by C08.", "DESIGN.md §8 C06"),
- "C07": ("The accounting decision procedure Layout.accounted is proved sound for every decoded view (yes => ids in [2,mark) are partitioned into reachable-once / freelist page / free-once); "
+ "C07": ("The accounting decision procedure Layout.accounted is proved sound for every decoded view (yes => ids in [2,mark) are partitioned into reachable-once / freelist page / free-once), and its key-order verdict is proved to mean sorted at every nesting level (a well-formed reference state); "
          "it is evaluated by the extracted independent reader on the file bytes after every commit of generated histories, together with key order, element bounds, file length and Tx.Check.",
          "Decoder fuel 200 levels of nesting/depth; images are the page-cache view of the file.", "DESIGN.md §8 C07"),
  "C08": ("Pager.v: for every sequence of frees and allocations of a transaction, Rollback+reload restores exactly the state its begin left (newest version, mark, readers, pending, free set, no writer) and the "
@@ -57,7 +58,7 @@ P = {
          "Truly concurrent writer goroutines are not used (interleaving is at chunk boundaries of the copy); remaps during a backup are avoided (they would wait for the backup's own reader).", "DESIGN.md §8 C14"),
  "C19": ("The reference verdict is computed by the independent decoder; its accounting part is proved EXACT (sound and complete): it accepts precisely the files in which every id below the mark is reachable once, part "
          "of the freelist page, or listed free once. Tie: Tx.Check and `bbolt check` (exit status) vs that verdict on consistent files and on a sweep of single structural corruptions, in both directions (no miss, no false alarm).",
-         "Key-order and page-type verdicts of the decoder are exercised, not proved exact. Corrupt files that make the decoder's walk not end within 5 s count as corrupt.", "DESIGN.md §8 C19"),
+         "The decoder's key-order verdict is proved to imply sortedness at every level and containment in the parent's range; its page-type verdict is exercised, not proved. Corrupt files that make the decoder's walk not end within 5 s count as corrupt.", "DESIGN.md §8 C19"),
  "C20": ("Layout: a meta rewritten with freelist=none and a fresh checksum validates and keeps every other field (abandon); with the older meta in both slots Open presents it (revert). Pager: the free list rebuilt "
          "by scanning is exactly free+pending = the unreachable pages (rebuild); the previous version's pages are intact directly after a commit (invariant). Tie: the CLI commands run in process after commits; "
          "output decoded before any Open, then opened; content vs Spec.v (previous version for revert), accounting, Tx.Check, source SHA-256.",
